@@ -401,7 +401,32 @@ def rule_patclosure(text, arg):
     return _splice(text, [(toks[j].start, toks[k - 1].end, new)]), 1, "closure parameter pattern %s bound by `let`, in-place spec added" % pat
 
 
+def rule_nullaryclosure(text, arg):
+    """R18: the (single) parameterless closure `|| EXPR` gets an in-place specification: `|| <arg> { EXPR }` (EXPR untouched)"""
+    toks = _tok(text)
+    hits = [j for j in range(len(toks) - 1) if toks[j].text == "|" and toks[j + 1].text == "|" and toks[j + 1].start == toks[j].end
+            and (j == 0 or toks[j - 1].text in "(,=")]
+    if len(hits) != 1:
+        raise TransplantError("R18: expected exactly one parameterless closure, found %d" % len(hits))
+    j = hits[0]
+    depth, k = 0, j + 2
+    while k < len(toks):
+        t = toks[k]
+        if t.text in "([{":
+            depth += 1
+        elif t.text in ")]}":
+            if depth == 0:
+                break
+            depth -= 1
+        elif t.text == "," and depth == 0:
+            break
+        k += 1
+    e = text[toks[j + 2].start:toks[k - 1].end]
+    return _splice(text, [(toks[j].start, toks[k - 1].end, "|| %s { %s }" % (arg.strip(), e))]), 1, "parameterless closure given the in-place spec `%s`" % arg.strip()
+
+
 RULES = {
+    "R18": rule_nullaryclosure,
     "R17": rule_patclosure,
     "R16": rule_nameiter,
     "R15": rule_bracearm,
@@ -535,8 +560,13 @@ def expand(template_text, repo_root, read=None):
             rname, _, rarg = r.partition(":")
             if rname not in RULES:
                 raise TransplantError("unknown rule " + rname)
-            real, n, note = RULES[rname](real, rarg)
-            fired.append({"rule": rname, "n": n, "note": note})
+            try:
+                real, n, note = RULES[rname](real, rarg)
+                fired.append({"rule": rname, "n": n, "note": note})
+            except TransplantError as e:
+                # the construct the rule rewrites is gone (the tree was modified): go on without it; the verifier then judges the
+                # text as it is (a front-end error leaves the unit undecided, it never becomes a violation by itself)
+                fired.append({"rule": rname, "n": 0, "note": "NOT APPLICABLE on this tree: %s" % e})
         exec_text, blocks = _split_region(region)
         t_toks = rs.norm(exec_text)
         r_tokobjs = rs.tokenize(real)
